@@ -559,9 +559,13 @@ func (g *caGen) step() {
 			ts = g.pickTS("del")
 		case 1:
 			// exactly at / around a stored timestamp
-			for _, v := range g.lastTS {
-				ts = v + int64(r.Intn(3)) - 1
-				break
+			if len(g.lastTS) > 0 { // a stored timestamp chosen by the PRNG (not by map iteration: same seed, same sequence)
+				keys := make([]string, 0, len(g.lastTS))
+				for k := range g.lastTS {
+					keys = append(keys, k)
+				}
+				sort.Strings(keys)
+				ts = g.lastTS[keys[r.Intn(len(keys))]] + int64(r.Intn(3)) - 1
 			}
 		}
 		if ts < 1 {
